@@ -18,7 +18,7 @@ interleaving of the atomic steps, a crash possible before every step).
 | every success is built from the current sources | `safety` (compiles never fail-and-return, or waiters re-check), `judge_safe_of_model`; **refuted otherwise:** `safety_compile_error` (unchanged tree: a waiter returns the stale library when the winner's compile fails) |
 | exactly one caller compiles | `mutual_exclusion` (unchanged tree) |
 | after a crash later loads still succeed … | **refuted for the unchanged tree:** `stale_lock_never_recovers`, `crash_while_holding_is_permanent`, `leftover_lock_is_stuck`; witness that the repaired protocol recovers: `recheck_recovers_example` |
-| … within bounded time | `bounded_termination` + `wait_free` (unchanged tree: every caller finishes within `K + 7` own steps, whatever the others do) |
+| … within bounded time | `bounded_termination` + `wait_free` (unchanged tree: every caller finishes within `K + 7` own steps, whatever the others do); `no_orphan_lock`, `judge_orphan_of_model` (both variants: a caller that returns never leaves its lock behind, so later loads do not have to wait out the timeout unless somebody died) |
 | … and never load a stale or truncated library | `safety` + `no_partial` hold in every reachable state, crashes included |
 
 OPEN (false for the unchanged tree, see the refutations above; not yet proved for `Variant.recheck`,
@@ -259,5 +259,60 @@ whatever state the others are in (waiting is polling, never blocking).  With
 theorem wait_free (c : Cfg) (s : State) (p : Nat) (pr : Proc) (hp : s.procs[p]? = some pr)
     (hf : pr.pc.finished = false) : ∃ a, a ∈ actsAt c pr.pc ∧ a ≠ Act.crash ∧ (step c s p a).isSome = true :=
   next_enabled c s p pr hp hf
+
+
+theorem reach_foreign {c : Cfg} {s t : State} (h : Reach c s t) (q : Nat) (hq : t.lock = some q)
+    (hf : s.procs.length ≤ q) : s.lock = some q := by
+  induction h with
+  | refl => exact hq
+  | tail p a hr hstep ih =>
+    have hl := reach_len hr
+    exact ih (step_foreign hstep q hq (by omega))
+
+/-- `no_orphan_lock` (both variants, any configuration): a lock file that exists in a reachable
+state is either the leftover one from the initial cache state, or its recorded owner is a caller
+that is still in a lock-holding pc (its next `unlock` removes the file) or that died.  Hence once
+every caller has returned, only a leftover lock can remain: a caller that returns never leaves its
+lock behind (which would make every later load wait out the timeout). -/
+theorem no_orphan_lock (c : Cfg) {s0 s : State} (hi : Init s0) (hr : Reach c s0 s) (q : Nat)
+    (hq : s.lock = some q) :
+    (s0.lock = some q ∧ s0.procs.length ≤ q) ∨
+    (∃ pr, s.procs[q]? = some pr ∧ (pr.pc.holder = true ∨ pr.pc = .dead)) := by
+  have hlen := reach_len hr
+  rcases Nat.lt_or_ge q s0.procs.length with hlt | hge
+  · right
+    have hl0 : LInv s0 := by
+      intro q' pr hl hp
+      have := hi.lockForeign q' hl
+      have hlt' : q' < s0.procs.length := by
+        rcases Nat.lt_or_ge q' s0.procs.length with h1 | h1
+        · exact h1
+        · rw [List.getElem?_eq_none h1] at hp; cases hp
+      omega
+    have hl := reach_linv hl0 hr
+    have hqlt : q < s.procs.length := by omega
+    exact ⟨s.procs[q], by simp [hqlt], hl q _ hq (by simp [hqlt])⟩
+  · left; exact ⟨reach_foreign hr q hq hge, hge⟩
+
+/-- The judge's form of it: the outcome of a reachable state in which nobody died and no lock was
+left over initially has no lock file. -/
+theorem judge_orphan_of_model (c : Cfg) {s0 s : State} (hi : Init s0) (hr : Reach c s0 s) :
+    judgeNoOrphanLock s0.lock.isSome (outcomeOf c s) = true := by
+  unfold judgeNoOrphanLock outcomeOf
+  simp only
+  cases h0 : s0.lock with
+  | some q0 => simp
+  | none =>
+    cases hl : s.lock with
+    | none => simp
+    | some q =>
+      rcases no_orphan_lock c hi hr q hl with ⟨h1, _⟩ | ⟨pr, hp, hpc⟩
+      · rw [h0] at h1; cases h1
+      · simp only [Option.isSome_none, Option.isSome_some, Bool.not_true, Bool.false_or, List.any_map, List.any_eq_true]
+        refine ⟨pr, List.mem_of_getElem? hp, ?_⟩
+        obtain ⟨pc, temp⟩ := pr
+        rcases hpc with h | h
+        · cases pc <;> simp [Pc.holder] at h <;> rfl
+        · simp only at h; subst h; rfl
 
 end TsVerif.C19
